@@ -1,5 +1,5 @@
 (* C01 runs the shared stream runner (kinds 0-3, 10-12) and, for the raw-JSON / file-based / compressor framers
-   (kinds 4-8), the runner of Run/C06.v.
+   (kinds 4-8; kind 20 = every mode of one shipped serializer), the runner of Run/C06.v.
    kind 30: StapledPacketSerializer.  input = L [A 30; A cls; A sent_cap; A recv_cap; inner; B probe] where [inner] is a
    receive case (kinds 0-3) for the RECEIVED serializer and [probe] a payload sent through the SENT serializer
    (an AutoSeparated serializer with separator LF when sent_cap >= 1).
@@ -54,6 +54,6 @@ Definition run (i : sx) : sx :=
   | L [A 31%Z; A url; A ck; B data; L table; L tokens] => run_b64 url ck data table tokens
   | L [A 30%Z; A cls; A s; A r; inner; B probe] => run_stapled cls s r inner probe
   | L (A k :: _) =>
-      if (Z.leb 4 k && Z.leb k 8)%bool then Run.C06.run i else Run.Stream.run i
+      if ((Z.leb 4 k && Z.leb k 8) || Z.eqb k 20)%bool then Run.C06.run i else Run.Stream.run i
   | _ => bad_input
   end.
